@@ -25,7 +25,7 @@ def run(ctx):
     rej = ctx.validate("Trace_C12", ev, shard=3, xmx="8g", timeout=7200)
     ctx.confirm_and_raise("Trace_C12", rej)
     # hooked runs: every derived_table call of the backtracking search is the transition function of LowIndex.tla
-    for c in (["S3", "Z2", "F2", "T23"] if ctx.quick else ["S3", "Z2", "F2", "T23", "KB"]):
+    for c in (["S3", "Z2", "F2", "T23", "U", "U3"] if ctx.quick else ["S3", "Z2", "F2", "T23", "KB", "U", "U3"]):
         ctx.mc("MC_LowIndex", cfg=f"MC_LowIndex_{c}", workers=8, universe=f"backtracking tree of LowIndex.tla, instance MC_LowIndex_{c}.cfg")
     hv = ctx.work / "hooked.ndjson"
     out = ctx.dsv("C12", "hooked", "--out", hv, "--syms", 14 if ctx.quick else 80, "--k", 5 if ctx.quick else 6,
